@@ -155,6 +155,19 @@ CLAIMED = {
         "read simulator gen/reads.py",
         "DESIGN.md section 4 C19",
     ),
+    "C10": (
+        "stage-boundary recorders inside one genotype() call + independent recomputation of the final selection",
+        "estimate_cn, estimate_major and solve_minor_model are wrapped; their results and scores are copied at return "
+        "(before genotype() rewrites scores in place). From these raw scores the surviving major solutions, the combined "
+        "scores (minor + carried major difference, rescaled by the structure score), the reported set within gap + "
+        "precision and its order are recomputed and compared with genotype()'s return value; every reported solution is "
+        "checked as a chain (configurations vs structure, minors vs majors, diplotype indices, derivation from recorded "
+        "candidates); forced empty stages must end in an error. Workload: simulated samples with a fractional extra copy, "
+        "sequencing errors and jitter so that several structures and major solutions compete, gap 0/0.1/0.3, 1-3 minor "
+        "solutions.",
+        "read simulator; precision 1e-2 as in aldy.common; items exceeding 40 s are counted as skipped",
+        "DESIGN.md section 4 C10",
+    ),
 }
 
 NOT_YET = {}
